@@ -76,6 +76,15 @@ func encObs(b []byte, o outcome) string {
 	return VS("panic")
 }
 
+// decObsState is decObs for struct destinations of the form codec: the content afterwards is
+// observed on error too (fields and array elements written before the failing one).
+func decObsState(o outcome, val string) string {
+	if o == oErr {
+		return VL(VS("err"), val)
+	}
+	return decObs(o, val)
+}
+
 func decObs(o outcome, val string) string {
 	switch o {
 	case oOK:
@@ -396,7 +405,7 @@ func formRoundtripCase(cfg *RunCfg, st *Stats, w *CaseWriter, idx int, distinct 
 	if eo == oOK {
 		do, msg := guardedUnmarshal(formC, enc, dst.Interface())
 		got := descField(dst.Elem())
-		dec = decObs(do, got)
+		dec = decObsState(do, got)
 		human += fmt.Sprintf(" | encoded %q", enc)
 		if do == oPanic {
 			st.Fail(idx, "form-decode-panic", "form decoder panicked: "+msg, human)
@@ -496,7 +505,7 @@ func formGarbageCase(cfg *RunCfg, st *Stats, w *CaseWriter, idx int, distinct Di
 	}
 	st.Count(fmt.Sprintf("formdec-outcome:%d", do))
 	in := VL(VS("formdec"), dstD, VB(data))
-	w.Add(in, decObs(do, descField(dst.Elem())))
+	w.Add(in, decObsState(do, descField(dst.Elem())))
 	if len(data) > 0 {
 		distinct.Add(in)
 	}
